@@ -62,7 +62,7 @@ def main():
     ids = sorted(d for d in os.listdir(os.path.join(VERIF, "seeded")) if os.path.exists(os.path.join(VERIF, "seeded", d, "meta.json")))
     if sel:
         ids = [i for i in ids if any(s in i for s in sel)]
-    with ThreadPoolExecutor(max_workers=4) as ex:
+    with ThreadPoolExecutor(max_workers=int(os.environ.get("SEED_WORKERS", "4"))) as ex:
         results = list(ex.map(run_seed, ids))
     for r in results:
         print(f"{'CAUGHT' if r.get('caught') else ('caught-by-other' if r.get('caught_by_any') else 'MISSED'):16} {r['seed']:40} fired={r['fired']} errors={r['errors']}")
